@@ -34,7 +34,8 @@ var props = []PropSpec{
 		Harnesses: []HarnessSpec{
 			{Func: "Check_Codec", Reach: []string{"decoded", "collector-decoded", "big-field"},
 				Bounds: "22 element kinds (every supported data type; octetArray fixed+variable; IPv4 as 4- and 16-byte net.IP; reverse and Antrea enterprise elements); every value bit symbolic; string/octet lengths quick {0..40, 250..260, 65530..65535}, thorough {0..1100, 65500..65535}; element between a symbolic u16 and u32 sentinel"},
-			{Func: "Check_TemplateValue", Reach: []string{"built"}, Bounds: "all 22 element kinds, nil value"},
+			{Func: "Check_TemplateValue", Reach: []string{"built"}, Bounds: "all element kinds, nil value"},
+			{Func: "Check_IncrementalRecord", Reach: []string{"incremental"}, Bounds: "records of 1..3 elements from 5 kinds added one by one through Record.AddInfoElement with GetBuffer read after any subset of the additions"},
 		},
 	},
 	{
@@ -124,7 +125,7 @@ var props = []PropSpec{
 		ID: "C16", Pkg: "./c16", ReplayPkg: "./cmd/rc16", Level: "model_checking",
 		Assumptions: append([]string{"well-formed operation order only (a PrepareSet precedes adds), as the property's quantifier states; decoding-mode sets are outside (the property is about builders)"}, codecAssumptions...),
 		Harnesses: []HarnessSpec{
-			{Func: "Check_Sequences", Reach: []string{"reset", "done"},
+			{Func: "Check_Sequences", Reach: []string{"reset", "done", "prepared-again"},
 				Bounds: "prefix {none, template set + add, data set + add} then ResetSet, then PrepareSet(type, symbolic id) and 1..2 adds through any of the three add paths (extra elements {0,2} quick / 0..3 thorough) with element lists from a menu of 6 (0..3 elements; fixed 1/2/4/8, MAC, IPv4, string, variable octets; IANA, reverse, Antrea), UpdateLenInHeader at any point; every operation mirrored on a fresh NewSet; string lengths {0,255} quick / {0,1,254,255} thorough"},
 			{Func: "Check_AddPaths", Reach: []string{"compared"},
 				Bounds: "1..2 records; first record 0..2 (quick) / 0..3 (thorough) elements, all combinations over a pool of 10 kinds; extra capacity {0,1,3}; template and data sets"},
@@ -135,7 +136,8 @@ var props = []PropSpec{
 		Assumptions: append([]string{"wire bytes are produced by the reference encoder from symbolic values; the same bytes are presented to three collectors (strict, keep, drop) and, reduced to the known fields, to a fourth"}, codecAssumptions...),
 		Harnesses: []HarnessSpec{
 			{Func: "Check_Modes", Reach: []string{"strict-rejects", "all-known", "keep-checked", "drop-checked", "reduced-checked", "older-template"},
-				Bounds: "templates of 1..2 (quick) / 1..3 (thorough) positions, each a known element (6 kinds) or an unknown one (IANA id 999, enterprise 9999, Antrea id 9999) of fixed length 1,2,5 or variable length (payload 0,3,255 bytes); 1 / 1..2 records; all values symbolic"},
+				Bounds: "templates of 1..2 (quick) / 1..3 (thorough) positions, each a known element (6 kinds) or an unknown one (IANA id 999, enterprise 9999, Antrea id 9999) of fixed length 1,2,5 or variable length (payload 0,3,255 bytes); 1 / 1..2 records; all values symbolic; optionally an older known-only template for the same id installed first in every mode"},
+			{Func: "Check_KeepOverTCP", Reach: []string{"tcp-checked"}, Bounds: "keep and drop mode through handleTCPClient: template + two data messages with a known and an unknown (fixed 4 / variable) field on one connection; symbolic values"},
 		},
 	},
 	{
@@ -236,7 +238,7 @@ var props = []PropSpec{
 			"delays between segments are not modelled (the code has no timeouts on the read path)",
 		}, codecAssumptions...),
 		Harnesses: []HarnessSpec{
-			{Func: "Check_Segmentation", Reach: []string{"all-delivered", "closed-after-undecodable-message"},
+			{Func: "Check_Segmentation", Reach: []string{"all-delivered", "closed-after-undecodable-message", "live-other-connection"},
 				Bounds: "stream = template message + 2 data messages with symbolic values (+ optionally one undecodable message - bad version, length field shorter than the content, unknown template - at any of the 4 positions); every single cut point (quick), every pair of cut points (thorough) over the whole stream; a second connection afterwards"},
 		},
 	},
